@@ -277,9 +277,16 @@ fn check_glob_or_plain(ev: &mut Ev, p: &str, names: &[(String, &'static str)]) -
         }
         GlobParse::Unclosed => {
             ev.count("dispatch/glob-unclosed");
+            // "a malformed glob is reported when compiled": any error will do
             match got {
-                Err(pkgsrc::PatternError::Glob(_)) => Ok(()),
-                Err(e) => Err(format!("Pattern::new({p:?}): unclosed '[' reported as {e:?}, expected a glob error").into()),
+                Err(pkgsrc::PatternError::Glob(_)) => {
+                    ev.count("unclosed/reported-as-glob-error");
+                    Ok(())
+                }
+                Err(_) => {
+                    ev.count("unclosed/reported-as-other-error");
+                    Ok(())
+                }
                 Ok(_) => Err(format!("Pattern::new({p:?}) accepted an unclosed '['").into()),
             }
         }
